@@ -2,12 +2,23 @@
 EXTENDS Loot_MC, Json
 Emit == (Len(hist) = MaxOps) => PrintT(<<"BEHAVIOUR", ToJson(hist)>>)
 (* every name of the alphabet once: open, two chunks, close, a stray chunk, and the same name through the service path *)
-NamesNext == \/ hist = <<>> /\ \E n \in NameSet : Open("a1", 1, n)
+NamesNext == \/ hist = <<>> /\ \E n \in NameSet : Open("a1", 1, n, "ample")
              \/ Len(hist) = 1 /\ Write("a1", 1, "c1")
              \/ Len(hist) = 2 /\ Write("a1", 1, "c2")
              \/ Len(hist) = 3 /\ Close("a1", 1)
              \/ Len(hist) = 4 /\ Write("a1", 1, "c1")
 NamesSpec == Init /\ [][NamesNext]_vars
+(* a restart in the middle: a transfer in progress, the restart, then every small name for either restored session (short
+   announced size), a chunk, a chunk for the transfer that was in progress before (written nowhere), close, a service file *)
+RestartNext == \/ hist = <<>> /\ Open("a1", 1, <<"f">>, "ample")
+               \/ Len(hist) = 1 /\ Write("a1", 1, "c1")
+               \/ Len(hist) = 2 /\ Restart
+               \/ Len(hist) = 3 /\ \E a \in Agents, n \in SmallNames : Open(a, 2, n, "short")
+               \/ Len(hist) = 4 /\ Write(hist[4].a, 2, "c2")
+               \/ Len(hist) = 5 /\ Write("a1", 1, "c1")
+               \/ Len(hist) = 6 /\ Close(hist[4].a, 2)
+               \/ Len(hist) = 7 /\ \E a \in Agents : ServiceFile(a, <<"f">>, "c1")
+RestartSpec == Init /\ [][RestartNext]_vars
 SvcNext == \/ hist = <<>> /\ \E n \in NameSet, a \in Agents : ServiceFile(a, n, "c1")
            \/ hist = <<>> /\ \E a \in Agents, cls \in CraftedIds : CraftedFile(a, cls)
 SvcSpec == Init /\ [][SvcNext]_vars
